@@ -746,6 +746,232 @@ def run_grid(ctx_dir, only=None):
     return out
 
 
+# ---- every public builder of Fields from caller data, enumerated from the source (tr/c07_builders.py) ----
+
+class Persist:
+    """Registry of the arrays the caller keeps (and may edit later)."""
+
+    def __init__(self):
+        self.arrays = []
+
+    def __call__(self, a, dtype=float):
+        a = a if isinstance(a, np.ndarray) else np.array(a, dtype=dtype)
+        self.arrays.append(a)
+        return a
+
+    def fn(self, make):
+        """a tabulated / memoised callable: evaluates once per argument shape, then serves the stored array"""
+        store = {}
+
+        def f(k):
+            key = np.shape(k)
+            if key not in store:
+                store[key] = self(np.array(make(np.asarray(k)), dtype=float))
+            return store[key]
+        return f
+
+
+def builder_recipes():
+    """qualified name (as enumerated from the source) -> list of recipes (ift, P) -> built object(s)"""
+    import nifty.cl as ift
+    d1 = ift.RGSpace(4)
+    d2 = ift.RGSpace((2, 3))
+    dt1 = ift.DomainTuple.make(d1)
+    hs = ift.RGSpace(8, harmonic=True)
+    ps = ift.PowerSpace(hs)
+    md = ift.MultiDomain.make({"a": d1, "b": d2})
+    spec = lambda k: 42. / (1. + k) ** 2          # noqa: E731
+
+    def F(P, dom=d1, off=1.):
+        return ift.Field.from_raw(dom, P(np.arange(int(np.prod(ift.DomainTuple.make(dom).shape)), dtype=float).reshape(ift.DomainTuple.make(dom).shape) + off))
+
+    R = {
+        "nifty.cl.field:Field.__init__": [
+            lambda P: ift.Field(dt1, P(np.arange(4.) + 1)),
+            lambda P: ift.Field(dt1, ift.AnyArray(P(np.arange(4.) + 1))),
+            lambda P: ift.Field(ift.DomainTuple.scalar_domain(), P(np.array(3.)))],
+        "nifty.cl.field:Field.from_raw": [
+            lambda P: ift.Field.from_raw(d1, P(np.arange(4.) + 1)),
+            lambda P: ift.Field.from_raw(d2, P(np.arange(6.).reshape(2, 3) + 1)),
+            lambda P: ift.Field.from_raw(d2, P((np.arange(6.).reshape(3, 2) + 1).T)),
+            lambda P: ift.Field.from_raw(ift.DomainTuple.scalar_domain(), P(np.array(3.))),
+            lambda P: ift.Field.from_raw(d1, P(np.array(3.)))],
+        "nifty.cl.field:Field.full": [lambda P: ift.Field.full(d1, 3.), lambda P: ift.Field.full(d1, P(np.array(3.)))],
+        "nifty.cl.field:Field.map": [
+            lambda P: F(P).map(lambda v: ift.AnyArray(P(np.arange(4.) + 7))),
+            lambda P: F(P).map(lambda v, keep=ift.AnyArray(P(np.arange(4.) + 7)): keep)],
+        "nifty.cl.field:Field.cast_domain": [lambda P: F(P).cast_domain(ift.UnstructuredDomain(4))],
+        "nifty.cl.field:Field.scalar": [lambda P: ift.Field.scalar(P(np.array(3.))), lambda P: ift.Field.scalar(3.)],
+        "nifty.cl.any_array:AnyArray.full": [lambda P: ift.Field(dt1, ift.AnyArray.full((4,), 2.))],
+        "nifty.cl.multi_field:MultiField.from_raw": [
+            lambda P: ift.MultiField.from_raw(md, {"a": P(np.arange(4.)), "b": P(np.arange(6.).reshape(2, 3))})],
+        "nifty.cl.multi_field:MultiField.from_dict": [lambda P: ift.MultiField.from_dict({"a": F(P), "b": F(P, d2)})],
+        "nifty.cl.multi_field:MultiField.full": [lambda P: ift.MultiField.full(md, 2.)],
+        "nifty.cl.sugar:makeField": [
+            lambda P: ift.makeField(d1, P(np.arange(4.) + 1)),
+            lambda P: ift.makeField(md, {"a": P(np.arange(4.)), "b": P(np.arange(6.).reshape(2, 3))}),
+            lambda P: ift.makeField(ift.DomainTuple.scalar_domain(), P(np.array(2.)))],
+        "nifty.cl.sugar:full": [lambda P: ift.full(d1, 3.), lambda P: ift.full(md, 3.)],
+        "nifty.cl.sugar:PS_field": [
+            lambda P: ift.PS_field(ps, P.fn(spec)),
+            lambda P: ift.makeOp(ift.PS_field(ps, P.fn(spec)))],
+        "nifty.cl.sugar:create_power_operator": [
+            lambda P: ift.create_power_operator(hs, P.fn(spec)),
+            lambda P: ift.create_power_operator((d1, hs), P.fn(spec), space=1, sampling_dtype=float),
+            lambda P: ift.create_power_operator(hs, ift.PS_field(ps, P.fn(spec)))],
+        "nifty.cl.sugar:get_signal_variance": [lambda P: ift.get_signal_variance(P.fn(spec), hs)],
+        "nifty.cl.sugar:makeOp": [lambda P: ift.makeOp(F(P)), lambda P: ift.makeOp(ift.MultiField.from_dict({"a": F(P)}))],
+        "nifty.cl.operators.adder:Adder.__init__": [lambda P: ift.Adder(F(P)), lambda P: ift.Adder(2., domain=d1)],
+        "nifty.cl.operators.energy_operators:GaussianEnergy.__init__": [
+            lambda P: ift.GaussianEnergy(data=F(P)), lambda P: ift.GaussianEnergy(data=F(P), inverse_covariance=ift.makeOp(F(P)))],
+        "nifty.cl.operators.energy_operators:PoissonianEnergy.__init__": [
+            lambda P: ift.PoissonianEnergy(ift.Field.from_raw(d1, P(np.arange(4) + 1, dtype=np.int64)))],
+        "nifty.cl.operators.energy_operators:BernoulliEnergy.__init__": [
+            lambda P: ift.BernoulliEnergy(ift.Field.from_raw(d1, P(np.array([0, 1, 1, 0]), dtype=np.int64)))],
+        "nifty.cl.operators.energy_operators:InverseGammaEnergy.__init__": [lambda P: ift.InverseGammaEnergy(F(P), F(P, off=2.))],
+        "nifty.cl.operators.mask_operator:MaskOperator.__init__": [
+            lambda P: ift.MaskOperator(ift.Field.from_raw(d1, P(np.array([0, 1, 0, 0]), dtype=np.int64)))],
+        "nifty.cl.operators.outer_product_operator:OuterProduct.__init__": [lambda P: ift.OuterProduct(d1, F(P, d2))],
+        "nifty.cl.operators.simplify_for_const:ConstantOperator.__init__": [lambda P: __import__('nifty.cl.operators.simplify_for_const', fromlist=['x']).ConstantOperator(F(P), domain=d2)],
+        "nifty.cl.operators.normal_operators:NormalTransform": [
+            lambda P: ift.NormalTransform(P(np.arange(3.) + 1), P(np.arange(3.) + 2), "x", 3)],
+        "nifty.cl.operators.normal_operators:LognormalTransform": [
+            lambda P: ift.LognormalTransform(P(np.arange(3.) + 1), P(np.arange(3.) + 2), "x", 3)],
+        "nifty.cl.utilities:value_reshaper": [lambda P: ift.makeField(ift.UnstructuredDomain(3), ift.utilities.value_reshaper(P(np.arange(3.)), 3))],
+        "nifty.cl.utilities:lognormal_moments": [lambda P: ift.utilities.lognormal_moments(P(np.arange(3.) + 1), P(np.arange(3.) + 1), 3)],
+        "nifty.cl.operators.matrix_product_operator:MatrixProductOperator.__init__": [
+            lambda P: ift.MatrixProductOperator(d1, P(np.arange(16.).reshape(4, 4)))],
+        "nifty.cl.operators.linear_interpolation:LinearInterpolator.__init__": [
+            lambda P: ift.LinearInterpolator(d1, P(np.array([[0.5, 1.5, 2.25]])))],
+        "nifty.cl.operators.distributors:DOFDistributor.__init__": [
+            lambda P: ift.DOFDistributor(ift.Field.from_raw(d1, P(np.array([0, 1, 1, 0]), dtype=np.int64)))],
+    }
+    return R
+
+
+R_FIELD = "the tainted parameters are Fields / MultiFields / Operators / energies / sample lists / domains (immutable by C07 itself or no array data); no caller array reaches a Field"
+R_SCALAR = "scalars, shapes, index tuples, strings or flags only; no caller array reaches a Field"
+R_RAW = "the caller's array is kept as a plain (unlocked) array / used to compute a table of the operator; no Field is built from it (outside C07: not a Field)"
+BUILDER_EXEMPT = {
+    "nifty.cl.library.correlated_fields:CorrelatedFieldMaker.offset_amplitude_realized": R_FIELD,
+    "nifty.cl.library.correlated_fields:CorrelatedFieldMaker.slice_fluctuation_realized": R_FIELD,
+    "nifty.cl.minimization.energy_adapter:EnergyAdapter.__init__": R_FIELD,
+    "nifty.cl.minimization.quadratic_energy:QuadraticEnergy.__init__": R_FIELD,
+    "nifty.cl.random:Random.normal": R_SCALAR, "nifty.cl.random:Random.uniform": R_SCALAR,
+    "nifty.cl.utilities:my_lincomb": R_FIELD, "nifty.cl.utilities:my_lincomb_simple": R_FIELD,
+    "nifty.cl.field:Field.broadcast": R_SCALAR, "nifty.cl.field:Field.outer": R_FIELD, "nifty.cl.field:Field.ptw": R_SCALAR,
+    "nifty.cl.field:Field.ptw_with_deriv": R_SCALAR, "nifty.cl.field:Field.s_vdot": R_FIELD, "nifty.cl.field:Field.vdot": R_FIELD,
+    "nifty.cl.field:Field.squeeze": R_SCALAR, "nifty.cl.field:Field.weight": R_SCALAR,
+    "nifty.cl.multi_field:MultiField.clip": R_FIELD, "nifty.cl.multi_field:MultiField.extract_part": R_FIELD,
+    "nifty.cl.multi_field:MultiField.flexible_addsub": R_FIELD, "nifty.cl.multi_field:MultiField.ptw": R_SCALAR,
+    "nifty.cl.multi_field:MultiField.ptw_with_deriv": R_SCALAR, "nifty.cl.multi_field:MultiField.s_vdot": R_FIELD,
+    "nifty.cl.multi_field:MultiField.unite": R_FIELD, "nifty.cl.multi_field:MultiField.vdot": R_FIELD,
+    "nifty.cl.evidence_lower_bound:estimate_evidence_lower_bound": R_FIELD, "nifty.cl.extra:check_linear_operator": R_FIELD,
+    "nifty.cl.extra:minisanity": R_FIELD, "nifty.cl.library.adjust_variances:do_adjust_variances": R_FIELD,
+    "nifty.cl.library.adjust_variances:make_adjust_variances_hamiltonian": R_FIELD,
+    "nifty.cl.library.correlated_fields:CorrelatedFieldMaker.average_fluctuation_realized": R_FIELD,
+    "nifty.cl.library.correlated_fields_simple:SimpleCorrelatedField": R_SCALAR,
+    "nifty.cl.library.los_response:LOSResponse.__init__": R_RAW, "nifty.cl.library.nft:Gridder.__init__": R_RAW,
+    "nifty.cl.library.nft:Nufft.__init__": R_RAW, "nifty.cl.library.nft:ShiftedPositionFFT": R_SCALAR,
+    "nifty.cl.library.nft:VariablePositionNufft.__init__": R_SCALAR,
+    "nifty.cl.library.variational_models:FullCovarianceVI.__init__": R_FIELD,
+    "nifty.cl.library.variational_models:MeanFieldVI.__init__": R_FIELD,
+    "nifty.cl.library.wiener_filter_curvature:WienerFilterCurvature": R_FIELD,
+    "nifty.cl.minimization.energy_adapter:StochasticEnergyAdapter.make": R_FIELD,
+    "nifty.cl.minimization.kl_energies:SampledKLEnergy": R_FIELD, "nifty.cl.minimization.kl_energies:draw_samples": R_FIELD,
+    "nifty.cl.minimization.optimize_kl:optimize_kl": R_FIELD, "nifty.cl.minimization.sample_list:SampleList.__init__": R_FIELD,
+    "nifty.cl.multi_domain:MultiDomain.make": R_FIELD, "nifty.cl.multi_domain:MultiDomain.union": R_FIELD,
+    "nifty.cl.operator_spectrum:operator_spectrum": R_FIELD, "nifty.cl.operator_tree_optimiser:optimise_operator": R_FIELD,
+    "nifty.cl.operators.chain_operator:ChainOperator.make": R_FIELD,
+    "nifty.cl.operators.contraction_operator:ContractionOperator.__init__": R_SCALAR,
+    "nifty.cl.operators.domain_tuple_field_inserter:DomainTupleFieldInserter.__init__": R_SCALAR,
+    "nifty.cl.operators.einsum:LinearEinsum.__init__": R_FIELD, "nifty.cl.operators.einsum:MultiLinearEinsum.__init__": R_FIELD,
+    "nifty.cl.operators.energy_operators:CategoricalEnergy.__init__": R_FIELD,
+    "nifty.cl.operators.energy_operators:StandardHamiltonian.__init__": R_FIELD,
+    "nifty.cl.operators.field_zero_padder:FieldZeroPadder.__init__": R_SCALAR,
+    "nifty.cl.operators.operator:Operator.identity_operator": R_FIELD,
+    "nifty.cl.operators.regridding_operator:RegriddingOperator.__init__": R_SCALAR,
+    "nifty.cl.operators.selection_operators:SliceOperator.__init__": R_SCALAR,
+    "nifty.cl.operators.selection_operators:SplitOperator.__init__": R_SCALAR,
+    "nifty.cl.operators.simple_linear_operators:ExtractAtIndices.__init__": R_RAW,
+    "nifty.cl.operators.simple_linear_operators:PrependKey.__init__": R_SCALAR,
+    "nifty.cl.operators.simple_linear_operators:ducktape": R_FIELD,
+    "nifty.cl.operators.simplify_for_const:ConstantEnergyOperator.__init__": R_FIELD,
+    "nifty.cl.operators.simplify_for_const:ConstantLikelihoodEnergyOperator.__init__": R_FIELD,
+    "nifty.cl.operators.simplify_for_const:InsertionOperator.__init__": R_FIELD,
+    "nifty.cl.operators.sum_operator:SumOperator.make": R_FIELD, "nifty.cl.operators.sum_operator:SumOperator.simplify": R_FIELD,
+    "nifty.cl.operators.transpose_operator:TransposeOperator.__init__": R_SCALAR,
+    "nifty.cl.probing:probe_diagonal": R_FIELD, "nifty.cl.sugar:calculate_position": R_FIELD,
+    "nifty.cl.sugar:density_estimator": R_SCALAR, "nifty.cl.sugar:domain_union": R_FIELD, "nifty.cl.sugar:exec_time": R_FIELD,
+    "nifty.cl.sugar:get_default_codomain": R_FIELD, "nifty.cl.sugar:plot_priorsamples": R_FIELD,
+}
+
+
+def reachable_claims(obj, limit=400):
+    """Fields and LOCKED AnyArrays reachable from obj (through attributes, tuples, lists, dicts): the
+    objects that claim to be immutable.  Returns a list of ndarray-returning thunks."""
+    import nifty.cl as ift
+    seen, out, stack = set(), [], [(obj, 0)]
+    while stack and len(seen) < limit:
+        o, dep = stack.pop()
+        if id(o) in seen or dep > 6:
+            continue
+        seen.add(id(o))
+        if isinstance(o, ift.Field):
+            out.append(o.val)
+            continue
+        if isinstance(o, ift.AnyArray):
+            if o.readonly:
+                out.append(o)
+            continue
+        if isinstance(o, (str, bytes, int, float, complex, np.ndarray, type(None))) or isinstance(o, type):
+            continue
+        if isinstance(o, dict):
+            stack += [(v, dep + 1) for v in o.values()]
+        elif isinstance(o, (list, tuple, set, frozenset)):
+            stack += [(v, dep + 1) for v in o]
+        elif isinstance(o, ift.MultiField):
+            stack += [(v, dep + 1) for v in o.values()]
+        elif hasattr(o, "__dict__") and type(o).__module__.startswith("nifty."):
+            stack += [(v, dep + 1) for v in vars(o).values()]
+    return out
+
+
+def run_builder(qual, idx, recipe):
+    """(writes attempted, failure | None): build with persistent arrays, then edit them in place"""
+    P = Persist()
+    try:
+        obj = recipe(P)
+    except (ValueError, TypeError):
+        return 0, None          # the builder refused this kind of input: nothing to protect
+    claims = reachable_claims(obj)
+
+    def snap():
+        return json.dumps([[np.array(np.asarray(a.val), dtype=complex).real.tolist(),
+                            np.array(np.asarray(a.val), dtype=complex).imag.tolist()] for a in claims])
+    birth = snap()
+    n = 0
+    for ai, src in enumerate(P.arrays):
+        for wname, w in source_writes(src):
+            n += 1
+            try:
+                w()
+            except Exception:
+                pass
+            if snap() != birth:
+                return n, {"builder": qual, "recipe": idx, "array": ai, "write": wname, "claims": len(claims)}
+    return n, None
+
+
+def run_builders(only=None):
+    out = []
+    for qual, recipes in sorted(builder_recipes().items()):
+        for idx, rc in enumerate(recipes):
+            if only is None or only == [qual, idx]:
+                out.append((qual, idx) + run_builder(qual, idx, rc))
+    return out
+
+
 class C07(C.Check):
     prop = "C07"
     coq_dir = "C07"
@@ -764,6 +990,19 @@ class C07(C.Check):
 
     def __init__(self):
         self.runs = []
+        self.builders = {}
+
+    def translate(self, ctx):
+        """Enumerate from the source of the tree under test every public entry point through which caller
+        data can reach a Field; each needs a recipe or a stated exemption (fail closed)."""
+        from tr import c07_builders
+        self.builders = c07_builders.enumerate_builders(ctx.repo)
+        need = c07_builders.needs_recipe(self.builders)
+        have = set(builder_recipes()) | set(BUILDER_EXEMPT)
+        missing = sorted(set(need) - have)
+        if missing:
+            raise C.TranslationError("public builders of Fields from caller data without a recipe or exemption "
+                                     "(harness/props/c07.py builder_recipes / BUILDER_EXEMPT): %s" % missing)
 
     def correspondence(self, ctx, res):
         cases = [(c["input"]["L"], c["input"]["ops"]) for c in ctx.corpus() if c.get("input", {}).get("kind") == "history"]
@@ -847,6 +1086,18 @@ class C07(C.Check):
                                 "%s built from a %s source changed after '%s' through the source array" % (f["ctor"], f["source"], f["write"]),
                                 {"kind": "grid", "name": name})
         res.coverage["source_grid_cases"] = ngrid
+        nb = 0
+        for qual, idx, k, f in run_builders():
+            n += k
+            nb += 1
+            if f and nfail < 10:
+                nfail += 1
+                res.add_failing({"what": "field value changed", "ctor": qual, "route": "persistent array/%s" % f["write"]},
+                                "%s (recipe %d): a field / locked array built from caller data changed after '%s' through the array the caller kept" % (qual, idx, f["write"]),
+                                {"kind": "builder", "name": qual, "recipe": idx})
+        res.coverage["builders_enumerated_from_source"] = len(self.builders)
+        res.coverage["builders_with_data_parameters"] = {"recipes": sorted(builder_recipes()), "recipe_runs": nb,
+                                                         "exempt": {k: v[:40] for k, v in sorted(BUILDER_EXEMPT.items())}}
         res.coverage["numpy_ufunc_at_ignores_readonly"] = numpy_ufunc_at_ignores_readonly()
         ch = ufunc_at_probe()
         n += 20
@@ -874,6 +1125,11 @@ class C07(C.Check):
         i = rp["input"]
         if i["kind"] == "history":
             return run_history(i["L"], i["ops"])[1] is not None
+        if i["kind"] == "builder":
+            r = run_builders(only=[i["name"], i["recipe"]])
+            if not r:
+                raise C.MachineryError("unknown builder recipe %r" % i)
+            return r[0][3] is not None
         if i["kind"] == "ufunc_at":
             return bool(ufunc_at_probe())
         if i["kind"] == "grid":
